@@ -84,7 +84,9 @@ __CPROVER_assigns()
 __CPROVER_ensures(RET ==> (self->format_pattern == other->format_pattern && self->timestamp_pattern == other->timestamp_pattern && self->timestamp_timezone == other->timestamp_timezone && B(self->add_metadata_to_multi_line_logs) == B(other->add_metadata_to_multi_line_logs))) /*@ C12,C16 "a formatter is shared only between loggers whose pattern, timestamp pattern, time zone and multi-line setting are all the same: a statement is never rendered with another logger's pattern" */
 __CPROVER_ensures((self->format_pattern == other->format_pattern && self->timestamp_pattern == other->timestamp_pattern && self->timestamp_timezone == other->timestamp_timezone && B(self->add_metadata_to_multi_line_logs) == B(other->add_metadata_to_multi_line_logs)) ==> RET)
 ''')],
-    harness='  PFO* a; PFO* b; PFO_equals(a, b);', dropped=['std::string comparison as equality of content ids', 'bool fields normalised to 0/1 (a symbolic _Bool may hold any byte in CBMC)'], trusted=[], min_obligations=4)
+    harness='  PFO* a; PFO* b; PFO_equals(a, b);',
+    snapshot=[('a_fp', 'self->format_pattern'), ('a_tp', 'self->timestamp_pattern'), ('a_tz', 'self->timestamp_timezone'), ('a_ml', 'B(self->add_metadata_to_multi_line_logs)'), ('b_fp', 'other->format_pattern'), ('b_tp', 'other->timestamp_pattern'), ('b_tz', 'other->timestamp_timezone'), ('b_ml', 'B(other->add_metadata_to_multi_line_logs)')],
+    replay=dict(template='pfo.cpp', op='equals'), dropped=['std::string comparison as equality of content ids', 'bool fields normalised to 0/1 (a symbolic _Bool may hold any byte in CBMC)'], trusted=[], min_obligations=4)
 UNITS.append(pfo_equals)
 
 # ------------------------------------------------------------------------------------------ formatter look-up / creation in _dispatch_transit_event_to_sinks
